@@ -3,7 +3,7 @@ import random
 
 from engine import loader
 from engine.runner import Acc
-from engine.util import call, chunks
+from engine.util import np_str, call, chunks
 from spec import crc as R
 from spec import frames as F
 
@@ -61,6 +61,8 @@ def judge(kind, p):
         r2 = call(pms.adsb.icao, msg)
         if r2 != r:
             return "adsb.icao:differs_from_common"
+        if call(pms.icao, np_str(msg)) != r:
+            return "icao:numpy_str_frame_differs_from_str_frame"
         r3 = call(pms.allcall.icao, msg)
         if df == 11 and r3 != r:
             return "allcall.icao:DF11"
@@ -147,6 +149,66 @@ def w_all24(arg):
 
 
 SEQ_OPS = ("icao", "crc", "crc_enc", "adsb_icao", "df")
+
+
+def w_wire(seed):
+    """the transmitted address/parity field at its special values: for every AP format, length and payload the one
+    address for which the wire field reads 000000 / FFFFFF / 000001 (address = data parity xor that value); for the AA
+    formats the address for which the PI field reads those values (DF11: with interrogator codes 0, 5, 37, 79)."""
+    acc = Acc()
+    for df in AP_DF:
+        for n in (56, 112):
+            nd = n - 29
+            for pay in payloads(nd, seed, False) + [1, 1 << (nd - 1)]:
+                data = (df << nd) | (pay & ((1 << nd) - 1))
+                for wire in (0, 0xFFFFFF, 1):
+                    addr = R.parity(data, n - 24) ^ wire
+                    m = F.hexn((data << 24) | wire, n)
+                    for mm in (m, m.lower()):
+                        acc.n += 1
+                        s = judge("addr", (df, mm, addr))
+                        if s:
+                            acc.bad(s + ":wire_field_%06X" % wire, {"kind": "addr", "p": [df, mm, addr]})
+            acc.out.add(("wire", df))
+    for df in AA_DF:
+        n = NATURAL[df]
+        for ca in range(8):
+            for ic in ((0, 5, 37, 79) if df == 11 else (0,)):
+                for wire in (0, 0xFFFFFF, 1):
+                    if n == 56:
+                        addr = R.solve_low24((df << 3) | ca, 8, wire ^ ic)
+                        m = F.hexn(R.downlink((((df << 3) | ca) << 24) | addr, 56, ic), 56)
+                    else:
+                        # the ME field is fixed first; then PI = parity(header, address, ME): solve for the address with ME = 0
+                        # by linearity: parity(hdr|a|ME) = parity(hdr|a|0) -> a 24-bit unknown in the middle, solved by search
+                        # over the linear map of the address bits
+                        me = 0x58C382D690C8AC
+                        base = (((df << 3) | ca) << 80) | me
+                        want = wire ^ R.parity(base, 88)
+                        basis = {}
+                        for i in range(24):
+                            img, pre = R.parity(1 << (56 + i), 88), 1 << i
+                            while img:
+                                hb = img.bit_length() - 1
+                                if hb not in basis:
+                                    basis[hb] = (img, pre)
+                                    break
+                                img ^= basis[hb][0]
+                                pre ^= basis[hb][1]
+                        addr, t = 0, want
+                        while t:
+                            hb = t.bit_length() - 1
+                            t ^= basis[hb][0]
+                            addr ^= basis[hb][1]
+                        m = F.hexn(R.downlink(base | (addr << 56), 112, 0), 112)
+                    assert int(m[-6:], 16) == wire, (m, wire)
+                    for mm in (m, m.lower()):
+                        acc.n += 1
+                        s = judge("addr", (df, mm, addr))
+                        if s:
+                            acc.bad(s + ":wire_field_%06X" % wire, {"kind": "addr", "p": [df, mm, addr]})
+        acc.out.add(("wire", df))
+    return acc.res()
 
 
 def run_seq(msg, addr, ops):
@@ -249,7 +311,7 @@ def w_any(t):
         return w_table(t[1])
     if t[0] == "q":
         return w_seq(t[1])
-    return {"a": w_addr, "n": w_none, "x": w_all24}[t[0]](t[1])
+    return {"a": w_addr, "n": w_none, "x": w_all24, "w": w_wire}[t[0]](t[1])
 
 
 def run(ctx):
@@ -266,6 +328,7 @@ def run(ctx):
                 sq.append((h, 0xFADEBC))
                 break
     tasks += [("q", ([f], 4 if ctx.thorough else 3)) for f in sq]
+    tasks.append(("w", ctx.seed))
     if ctx.thorough:
         step = 1 << 15
         tasks += [("x", (lo, lo + step)) for lo in range(0, 1 << 24, step)]
@@ -283,4 +346,4 @@ def replay(case):
         s = judge_table(*case["p"])
         return [(s, case)] if s else []
     s = judge(case["kind"], tuple(case["p"]))
-    return [(s, case)] if s else []
+    return ([(s, case)] + [(s + ":wire_field_%06X" % w, case) for w in (0, 0xFFFFFF, 1)]) if s else []
